@@ -6,6 +6,12 @@ objects are delivered as real ``ScenarioFinished`` events (inside the engine's b
 metadata shape x response present/absent x 1-2 interactions is enumerated; the files are re-read with independent
 parsers (``yaml.safe_load``, ``json.loads``, ``ElementTree``) and compared with what was fed.
 
+Part (a2) "shapes" (E2, review round 2): value-independent shapes of a scenario enumerated in ``mc/c16_extra.py`` (response
+Content-Type x body, multi-valued response headers, exchange sequences N/E/U, check-result lists, request shapes) are built
+from JSON specs into the same real objects, written by the same five handlers at once and judged by the same oracles; the 15
+boundary contents of ``SMALL_CONTENTS`` run through part (a) "light" in every slot, and the slot ``label`` puts every content
+into the scenario label (JUnit test-case name).
+
 Part (b) "histories" (E5): BFS over protocol-conforming event histories; every history is closed into a complete engine
 stream and driven through the REAL ``executor._execute`` loop (real ``ExecutionContext``, JUnit + VCR + HAR handlers and
 the console ``OutputHandler``, stdout captured) with a supplied event stream.
@@ -35,6 +41,7 @@ import warnings
 from pathlib import Path
 from typing import Any, Iterator
 
+from mc import c16_extra as extra
 from mc.runner import Result
 
 ID = "C16"
@@ -48,16 +55,31 @@ RULE = (
     "distinct = (slot, content, position, meta, response, interactions). (b) work item = (first phase, first letter); BFS over "
     "histories of letters {scenario(label, status, failures), non-fatal error, operation error, next phase}, each history "
     "closed into a complete protocol-conforming stream and executed by the real executor._execute; states merged by "
-    "canon = (phase, statistic.failures, unique failures, JUnit labels, console error keys)"
+    "canon = (phase, statistic.failures, unique failures, JUnit labels, console error keys). (a-light, review round 2) the 15 "
+    "boundary contents of mc/c16_extra.SMALL_CONTENTS in every slot: alone x {generate, none} x response {present, network error} x 1 "
+    "interaction. (a2, review round 2) work item = a slice of one shape family of mc/c16_extra.py (response Content-Type x body, "
+    "multi-valued response headers, exchange sequences, check-result lists, request shapes): every shape is written by all five "
+    "writers at once and judged by the same oracles; distinct = (family, shape name)"
 )
 BOUNDS = {
-    "quick": {"positions": 2, "meta_shapes": 4, "interactions": [1, 2], "history_depth": 4, "unmerged_depth": 2},
-    "thorough": {"positions": 2, "meta_shapes": 4, "interactions": [1, 2], "history_depth": 5, "unmerged_depth": 3},
+    "quick": {"positions": 2, "meta_shapes": 4, "interactions": [1, 2], "history_depth": 4, "unmerged_depth": 2,
+              "shape_families": {k: len(v) for k, v in extra.shape_families().items()}, "light_contents": len(extra.SMALL_CONTENTS)},
+    "thorough": {"positions": 2, "meta_shapes": 4, "interactions": [1, 2], "history_depth": 5, "unmerged_depth": 3,
+                 "shape_families": {k: len(v) for k, v in extra.shape_families().items()}, "light_contents": len(extra.SMALL_CONTENTS)},
 }
 BUDGET_S = {"quick": 150, "thorough": 2400}
 CHUNK = 1
 ASSUMPTIONS = [
-    "contents outside the 20 listed classes and longer than 3 characters are not enumerated; multi-valued headers are not enumerated",
+    "contents outside the listed classes and longer than 4 characters are not enumerated; multi-valued headers only as the listed "
+    "response shapes (values of one name adjacent; a request cannot carry a name twice through `requests`)",
+    "response Content-Type shapes: a declared charset is only paired with bodies it can represent (what `lossless` means when the "
+    "body contradicts the declared charset is left open); HAR `queryString` is compared with a hand-decoded query of the sent URL and "
+    "left undecided for `+`, `;`, blank pieces, malformed escapes and non-UTF-8; HAR cookies / mimeType / sizes / dates are not judged "
+    "(the property names method, URL, headers, status, body)",
+    "a JUnit test-case name is demanded verbatim only when the label has no C0/C1 control, DEL, surrogate or noncharacter (XML cannot "
+    "carry or normalises them); otherwise exactly one test case and a parsable file are demanded",
+    "the VCR interaction `status` is demanded in two cases only: FAILURE when a recorded check failed, SUCCESS when checks were recorded "
+    "and none failed",
     "only realisable slot/content pairs are judged: URL text goes through requests' own quoting, request headers through requests' "
     "validation, response headers/reason are latin-1 without CR/LF/edge whitespace, check names are Python identifiers, failure "
     "titles are the fixed built-in ones or `Custom check failed: `name``",
@@ -119,9 +141,16 @@ CONTENTS: dict[str, Any] = {
     "nonchar_ffff": "\uffff",
     "nonchar_fffe": "\ufffe",
 }
+# review round 2: very small boundary contents, run "light" (alone, metadata {generate, none}, one interaction)
+CONTENTS.update(extra.SMALL_CONTENTS)
+LIGHT = set(extra.SMALL_CONTENTS)
+# characters XML 1.0 cannot carry at all, normalises inside an attribute value, or "discourages" (2.2: U+007F-U+009F, which junit_xml
+# drops from attribute values): a test-case name holding one is not demanded verbatim (the property asks for valid XML)
+_XML_UNFAITHFUL = set(map(chr, range(0x20))) | set(map(chr, range(0x7F, 0xA0))) | {"\ufffe", "\uffff"} | set(map(chr, range(0xD800, 0xE000)))
 SLOTS = [
     "url_path", "url_query", "req_header", "resp_header", "req_header_name", "resp_header_name", "req_body", "resp_body", "reason",
     "check_name", "check_title", "check_message", "cov_description", "cov_location", "cov_parameter", "argv",
+    "label",  # review round 2: the scenario label (operation label = METHOD + path template of the schema) -> JUnit test-case name
 ]
 POSITIONS = ["alone", "infix"]
 METAS = ["none", "generate", "explicit", "coverage"]
@@ -275,8 +304,14 @@ def build_exchange(slot: str, cname: str, pos: str, meta_shape: str, with_respon
     message = "Received: 500\nDocumented: 201"
     cov: dict = {}
     argv = None
+    label = "POST /b"
     try:
-        if slot == "url_path":
+        if slot == "label":
+            # the label of a unit scenario is `METHOD path-template`; the template is a key of the schema's `paths` (any JSON string)
+            if is_bytes:
+                return None
+            label = "POST /b/" + _wrap(raw, pos)
+        elif slot == "url_path":
             text = "".join(f"%{b:02X}" for b in raw) if is_bytes else raw
             text = _wrap(text, pos)
             text.encode("utf-8")
@@ -356,7 +391,7 @@ def build_exchange(slot: str, cname: str, pos: str, meta_shape: str, with_respon
         "id": case_id, "method": prepared.method, "url": prepared.url, "req_headers": dict(prepared.headers), "req_body": body,
         "has_response": with_response, "checks": [],
     }
-    out: dict[str, Any] = {"case": case, "prepared": prepared, "response": None, "fed": fed, "argv": argv, "failing": []}
+    out: dict[str, Any] = {"case": case, "prepared": prepared, "response": None, "fed": fed, "argv": argv, "failing": [], "label": label}
     if with_response:
         out["response"] = make_response(prepared, status, reason, resp_headers, resp_body)
         fed.update({"status": status, "reason": reason, "resp_headers": resp_headers, "resp_body": resp_body})
@@ -375,11 +410,15 @@ def build_recorder(label: str, exchanges: list[dict]) -> Any:
         rec.record_case(parent_id=None, transition=None, case=case)
         if ex["response"] is not None:
             rec.record_response(case_id=case.id, response=ex["response"])
+            failing = list(ex["failing"])  # recorded in the order of the fed list (successes and failures interleaved as given)
             for name, status in ex["fed"]["checks"]:
                 if status == "SUCCESS":
                     rec.record_check_success(name=name, case_id=case.id)
-            for name, failure in ex["failing"]:
-                rec.record_check_failure(name=name, case_id=case.id, code_sample=f"curl -X POST {BASE}/b", failure=failure)
+                else:
+                    fname, failure = failing.pop(0)
+                    assert fname == name
+                    rec.record_check_failure(name=name, case_id=case.id, code_sample=f"curl -X POST {BASE}/b", failure=failure)
+            assert not failing
         else:
             rec.record_request(case_id=case.id, request=ex["prepared"])
     return rec
@@ -583,6 +622,15 @@ def judge_vcr(data: bytes, feds: list[dict], preserve: bool, res: Result) -> lis
                 res.count("body_not_utf8_not_demanded")
             checks = [(c.get("name"), c.get("status")) for c in (e.get("checks") or [])]
             diff("checks", checks, [tuple(c) for c in fed["checks"]])
+            # the interaction's own status summarises its check results: the two cases the property leaves no room for
+            if any(st == "FAILURE" for _, st in fed["checks"]):
+                diff("status", e.get("status"), "FAILURE")
+            elif fed["checks"]:
+                diff("status", e.get("status"), "SUCCESS")
+            if fed.get("check_titles") and len(checks) == len(fed["checks"]):
+                # which failure belongs to which check result (the cassette has the failure's title as `message`)
+                got_titles = [c.get("message") for c, (_, st) in zip(e["checks"], fed["checks"]) if st == "FAILURE"]
+                diff("checks.message", got_titles, [t for t in fed["check_titles"] if t is not None])
             if not fed["has_response"]:
                 diff("response", e["response"], None)
                 continue
@@ -615,6 +663,67 @@ def judge_vcr(data: bytes, feds: list[dict], preserve: bool, res: Result) -> lis
     return out
 
 
+def independent_query(url: str) -> list[tuple[str, str]] | None:
+    """The (name, value) pairs of the query component of `url`, decoded by hand (RFC 3986 percent-decoding, UTF-8).  None = leave
+    undecided: no query, `+` (space in form encoding, literal plus in RFC 3986), `;`, blank pieces, malformed escapes, not UTF-8."""
+    rest = url.split("#", 1)[0]
+    if "?" not in rest:
+        return []
+    query = rest.split("?", 1)[1]
+    if query == "":
+        return []
+    if "+" in query or ";" in query:
+        return None
+    out = []
+    for piece in query.split("&"):
+        if piece == "":
+            return None
+        name, _, value = piece.partition("=")
+        decoded = []
+        for part in (name, value):
+            raw = bytearray()
+            idx = 0
+            while idx < len(part):
+                ch = part[idx]
+                if ch == "%":
+                    hexdigits = part[idx + 1: idx + 3]
+                    if len(hexdigits) != 2 or any(c not in "0123456789abcdefABCDEF" for c in hexdigits):
+                        return None
+                    raw.append(int(hexdigits, 16))
+                    idx += 3
+                else:
+                    if ord(ch) > 0x7E or ord(ch) < 0x21:
+                        return None
+                    raw.append(ord(ch))
+                    idx += 1
+            try:
+                decoded.append(raw.decode("utf-8"))
+            except UnicodeDecodeError:
+                return None
+        out.append((decoded[0], decoded[1]))
+    return out
+
+
+def _har_headers(records: list, fed_headers: list) -> list[tuple[str, str]]:
+    """HAR header records as (lower-case name, value).  Only when a name was received more than once: records are grouped by
+    name in the order the names were first received (a mapping keeps no order between different names), and one record holding the
+    values joined by ", " counts as all of them (RFC 9110 5.3; not for Set-Cookie, which has no list syntax)."""
+    got = [(h["name"].lower(), h["value"]) for h in records]
+    wanted: dict[str, list[str]] = {}
+    for k, v in fed_headers:
+        wanted.setdefault(k.lower(), []).append(v)
+    if all(len(vs) == 1 for vs in wanted.values()):
+        return got
+    out: list[tuple[str, str]] = []
+    for name, values in wanted.items():
+        mine = [v for k, v in got if k == name]
+        if len(values) > 1 and name != "set-cookie" and mine == [", ".join(values)]:
+            mine = values
+        out.extend((name, v) for v in mine)
+    out.extend((k, v) for k, v in got if k not in wanted)
+    return out  # comparable with the fed list as long as that lists the values of one name next to each other (the enumerator does)
+
+
 def judge_har(data: bytes, feds: list[dict], preserve: bool, res: Result) -> list[tuple]:
     try:
         doc = json.loads(data)
@@ -641,6 +750,12 @@ def judge_har(data: bytes, feds: list[dict], preserve: bool, res: Result) -> lis
             diff("request.method", req["method"], fed["method"])
             diff("request.headers", [(h["name"].lower(), h["value"]) for h in req["headers"]],
                  [(k.lower(), v) for k, v in fed["req_headers"].items()])
+            want_query = independent_query(fed["url"])
+            if want_query is None:
+                res.count("har_query_undecided")
+            else:
+                res.count("har_query_judged")
+                diff("request.queryString", [(q["name"], q["value"]) for q in req["queryString"]], want_query)
             post = req.get("postData")
             want = fed["req_body"]
             if want is None:
@@ -657,8 +772,7 @@ def judge_har(data: bytes, feds: list[dict], preserve: bool, res: Result) -> lis
                 continue
             diff("response.status.code", resp["status"], fed["status"])
             diff("response.status.message", resp["statusText"], fed["reason"])
-            diff("response.headers", [(h["name"].lower(), h["value"]) for h in resp["headers"]],
-                 [(k.lower(), v) for k, v in fed["resp_headers"]])
+            diff("response.headers", _har_headers(resp["headers"], fed["resp_headers"]), [(k.lower(), v) for k, v in fed["resp_headers"]])
             content = resp["content"]
             want = fed["resp_body"]
             text = content.get("text")
@@ -690,15 +804,25 @@ def judge_junit(data: bytes, label: str, feds: list[dict]) -> list[tuple]:
         return [err]
     cases = list(root.iter("testcase"))
     names = [c.get("name") for c in cases]
-    if names != [label]:
+    if len(names) != 1:
+        return [("exchanges", "testcases", f"got {names} expected {[label]}")]
+    if names != [label] and not (set(label) & _XML_UNFAITHFUL):
+        # a name with characters XML cannot carry (or normalises in attributes) is only demanded to yield ONE test case
         return [("exchanges", "testcases", f"got {names} expected {[label]}")]
     out = []
     titles = [f["failure_title"] for f in feds if f.get("failure_title")]
+    text = " ".join((f.get("message") or "") + (f.text or "") for f in cases[0].findall("failure"))
     if titles:
-        text = " ".join((f.get("message") or "") + (f.text or "") for f in cases[0].findall("failure"))
         # the first failure of a scenario is new to the run: it must be listed under the scenario's test case
         if titles[0] not in text:
             out.append(("mismatch", "checks", f"title {titles[0]!r} not listed in {text[:200]!r}"))
+    # shapes (review round 2): every failing check carries a failure of its own (distinct one-line message), so none of them is a
+    # repetition of another one: each must be listed with its title and its message
+    for fed in feds:
+        for title, message in fed.get("distinct_failures", []):
+            if title not in text or message not in text:
+                out.append(("mismatch", "checks", f"failure {title!r} / {message!r} not listed in {text[:300]!r}"))
+                break
     return out
 
 
@@ -723,7 +847,7 @@ def run_combo(slot: str, cname: str, pos: str, meta: str, with_response: bool, n
         assert second is not None
         # a network error (no response, no checks) FOLLOWS an exchange that has checks: per-exchange data must not carry over
         exchanges = [second, first] if not with_response else [first, second]
-    recorder = build_recorder("POST /b", exchanges)
+    recorder = build_recorder(first["label"], exchanges)
     status = Status.FAILURE if any(ex["failing"] for ex in exchanges) else Status.ERROR
     obs = run_contents(recorder, status, PhaseName[_PHASE_FOR_META[meta]], first["argv"])
     feds = [ex["fed"] for ex in exchanges]
@@ -748,7 +872,7 @@ def run_combo(slot: str, cname: str, pos: str, meta: str, with_response: bool, n
         elif channel == "har":
             judgements = judge_har(o["data"], feds, bool(preserve), res)
         else:
-            judgements = judge_junit(o["data"], "POST /b", feds)
+            judgements = judge_junit(o["data"], first["label"], feds)
         out[key] = [(j, _snippet(o["data"])) for j in judgements]
         res.outcomes.add(f"{channel}:{judgements[0][0] if judgements else 'ok'}")
     return out
@@ -782,8 +906,10 @@ def check_contents(item: dict, tier: str) -> Result:
     fx()
     slot, cname = item["slot"], item["content"]
     is_baseline = slot == "baseline"
-    metas = ["coverage"] if slot.startswith("cov_") else METAS
-    positions = ["alone"] if is_baseline else POSITIONS
+    light = cname in LIGHT
+    metas = ["coverage"] if slot.startswith("cov_") else (["generate", "none"] if light else METAS)
+    positions = ["alone"] if is_baseline or light else POSITIONS
+    interactions = [1] if light else BOUNDS[tier]["interactions"]
     found: dict[tuple, list] = {}  # (channel, kind, field) -> [(combo, note, snippet)]
     judged: list[tuple] = []
     for pos in positions:
@@ -791,7 +917,7 @@ def check_contents(item: dict, tier: str) -> Result:
             for with_response in (True, False):
                 if not with_response and slot in RESPONSE_SLOTS:
                     continue
-                for n in BOUNDS[tier]["interactions"]:
+                for n in interactions:
                     got = run_combo("none" if is_baseline else slot, "benign" if is_baseline else cname, pos, meta, with_response, n, res)
                     if got is None:
                         res.count("not_realisable_combos")
@@ -829,6 +955,122 @@ def check_contents(item: dict, tier: str) -> Result:
                                             "interactions": combo[3], "preserve_bytes": combo[4]},
                             "combos_violating": len(combos), "combos_judged": len(judged), "note": note,
                             "content_repr": repr(CONTENTS.get(cname, "x")), "z_file_head": snippet})
+    return res
+
+
+# --------------------------------------------------------------------------------------------------------------------
+# part (a2), review round 2: value-independent SHAPES of a scenario (mc/c16_extra.py), same handlers, same oracles
+# --------------------------------------------------------------------------------------------------------------------
+
+_DEFAULT_CHECKS = [["not_a_server_error", "SUCCESS"], ["my_check", "FAILURE"]]
+
+
+def build_spec_exchange(spec: dict, case_id: str) -> dict:
+    """One real case + interaction from an enumerated spec; `fed` comes from the PreparedRequest / the values handed to the Response."""
+    from schemathesis.core.failures import Failure
+
+    method = spec.get("method", "POST")
+    path = spec.get("path", "/b")
+    query = spec.get("query", [["q", "1"]])
+    req_headers = dict(spec.get("req_headers", [["X-T", "v"], ["Content-Type", "application/json"]]))
+    body_spec = spec.get("req_body", {"hex": b'{"k": "v"}'.hex()})
+    data: Any = None
+    if body_spec is not None:
+        if "hex" in body_spec:
+            data = bytes.fromhex(body_spec["hex"])
+        elif "form" in body_spec:
+            data = [tuple(p) for p in body_spec["form"]]  # requests form-encodes it: PreparedRequest.body is a `str`
+        else:
+            data = body_spec["text"]
+    prepared = make_prepared(method, BASE + path, req_headers, [tuple(p) for p in query] if query else None, data)
+    body = prepared.body
+    if isinstance(body, str):
+        body = body.encode("utf-8")
+    op_label = "GET /a" if path == "/a" else "POST /b"
+    case = make_case(op_label, case_id, make_meta(spec.get("meta", "generate")))
+    fed: dict[str, Any] = {"id": case_id, "method": prepared.method, "url": prepared.url, "req_headers": dict(prepared.headers),
+                           "req_body": body, "has_response": spec.get("response") is not None, "checks": []}
+    out: dict[str, Any] = {"case": case, "prepared": prepared, "response": None, "fed": fed, "argv": None, "failing": [], "label": "POST /b"}
+    resp = spec.get("response")
+    if resp is not None:
+        resp_headers = [tuple(h) for h in resp["headers"]]
+        resp_body = bytes.fromhex(resp["body"])
+        out["response"] = make_response(prepared, resp["status"], resp["reason"], resp_headers, resp_body)
+        fed.update({"status": resp["status"], "reason": resp["reason"], "resp_headers": resp_headers, "resp_body": resp_body})
+        checks = spec.get("checks", _DEFAULT_CHECKS)
+        if checks is not None:
+            fed["checks"] = [tuple(c) for c in checks]
+            fed["check_titles"] = []
+            fed["distinct_failures"] = []
+            for idx, (name, status) in enumerate(checks):
+                if status == "FAILURE":
+                    title, message = f"Custom check failed: `{name}`", f"message {case_id} {idx}"
+                    out["failing"].append((name, Failure(operation="POST /b", title=title, message=message)))
+                    fed["check_titles"].append(title)
+                    fed["distinct_failures"].append((title, message))
+                else:
+                    fed["check_titles"].append(None)
+    return out
+
+
+def check_shapes(item: dict, tier: str) -> Result:
+    from schemathesis.engine import Status
+    from schemathesis.engine.phases import PhaseName
+
+    res = Result()
+    fx()
+    family = item["family"]
+    shapes = extra.shape_families()[family][item["start"]: item["stop"]]
+    found: dict[tuple, list] = {}  # (tag, channel, kind, field) -> [(shape name, preserve, note, snippet)]
+    judged: dict[str, list] = {}
+    for shape in shapes:
+        exchanges = [build_spec_exchange(spec, f"c{idx + 1}") for idx, spec in enumerate(shape["exchanges"])]
+        label = shape.get("label", "POST /b")
+        recorder = build_recorder(label, exchanges)
+        if any(ex["failing"] for ex in exchanges):
+            status = Status.FAILURE
+        elif any(ex["response"] is None for ex in exchanges):
+            status = Status.ERROR
+        else:
+            status = Status.SUCCESS
+        obs = run_contents(recorder, status, PhaseName.FUZZING, None)
+        feds = [ex["fed"] for ex in exchanges]
+        res.count("shapes")
+        res.count(f"shapes_{family}")
+        res.nontriv(["shape", family, shape["name"]])
+        judged.setdefault(shape["tag"], []).append(shape["name"])
+        for key in CHANNELS:
+            channel, preserve = key
+            o = obs[key]
+            res.evaluations += 1
+            res.traces += 1
+            if o["ctx_error"] is not None:
+                judgements = [("context_raised", o["ctx_error"]["error"], o["ctx_error"]["where"] + ": " + o["ctx_error"]["message"])]
+            elif o["raised"] is not None:
+                judgements = [("handler_raised", o["raised"]["error"], o["raised"]["where"] + ": " + o["raised"]["message"])]
+            elif o["alive"]:
+                judgements = [("writer_thread_hangs", "alive_after_shutdown", "")]
+            elif o["thread_error"] is not None:
+                judgements = [("writer_thread_crashed", o["thread_error"]["error"], o["thread_error"]["where"] + ": " + o["thread_error"]["message"])]
+            elif channel == "vcr":
+                judgements = judge_vcr(o["data"], feds, bool(preserve), res)
+            elif channel == "har":
+                judgements = judge_har(o["data"], feds, bool(preserve), res)
+            else:
+                judgements = judge_junit(o["data"], label, feds)
+            res.outcomes.add(f"{channel}:{judgements[0][0] if judgements else 'ok'}")
+            for kind, field, note in judgements:
+                found.setdefault((shape["tag"], channel, kind, field), []).append((shape["name"], preserve, note, _snippet(o["data"], 1500)))
+    if shapes:
+        res.samples.append({"part": "shapes", "family": family, "shapes": [sh["name"] for sh in shapes][:6]})
+    for (tag, channel, kind, field), hits in sorted(found.items()):
+        sig = {"part": "shapes", "family": family, "shape": tag, "channel": channel, "kind": kind, "field": field}
+        if channel != "junit":
+            sig["preserve_bytes"] = _collapse([h[1] for h in hits], [True, False])
+        name, preserve, note, snippet = hits[0]
+        res.violation(sig, {"first_shape": name, "shapes_violating": sorted({h[0] for h in hits}), "shapes_judged_with_this_tag": judged[tag],
+                            "preserve_bytes": preserve, "note": note,
+                            "spec": next(sh for sh in shapes if sh["name"] == name)["exchanges"], "z_file_head": snippet})
     return res
 
 
@@ -1403,6 +1645,9 @@ def items(tier: str, seed: int) -> list[dict]:
     # the CLI always enables probing (cli/commands/run/__init__.py: `[PhaseName.PROBING] + ...`); the console handler relies on it
     out.append({"part": "engine", "phases": ["probing", "fuzzing", "stateful"], "a_status": 500})
     out.append({"part": "engine", "phases": ["probing", "fuzzing", "stateful"], "a_status": 200})
+    # review round 2: the same operation tested (and failing) in two unit phases and rediscovered in the stateful one, on the real engine
+    out.append({"part": "engine", "phases": ["probing", "coverage", "fuzzing", "stateful"], "a_status": 500})
+    out.extend(extra.shape_items())
     out.append({"part": "contents", "slot": "baseline", "content": "benign"})
     for slot in SLOTS:
         for cname in CONTENTS:
@@ -1425,6 +1670,8 @@ def check_item(item: dict, tier: str) -> Result:
         return check_contents(item, tier)
     if item["part"] == "histories":
         return check_histories(item, tier)
+    if item["part"] == "shapes":
+        return check_shapes(item, tier)
     return check_engine(item, tier)
 
 
@@ -1450,6 +1697,11 @@ def vacuity(total: Result, tier: str) -> list[str]:
         out.append("fewer than 50 BFS states were expanded")
     if c.get("engine_stateful_scenarios", 0) == 0:
         out.append("the real engine produced no stateful scenario")
+    for family, shapes in extra.shape_families().items():
+        if c.get(f"shapes_{family}", 0) != len(shapes):
+            out.append(f"shape family {family}: {c.get(f'shapes_{family}', 0)} of {len(shapes)} shapes were written")
+    if c.get("har_query_judged", 0) < 1000:
+        out.append("the HAR queryString oracle decided fewer than 1000 entries")
     if len(total.outcomes) < 2:
         out.append("a single outcome class")
     return out
